@@ -96,7 +96,7 @@ def run(R):
               '(labels(s) add/discard, replace_labelling_function with set/frozenset/list/shared containers, add_edge, a new state with its edges and '
               'labels) - with a pool of formula OBJECTS (composed from shared sub-objects) reused across the calls (now and then also passed to '
               'CTL/LTL.modelcheck); every answer must equal the proved model on the presentation read back at the time of the call, every formula object '
-              'must keep its tree, K must be left alone, returned sets are cleared / polluted by the caller after being recorded')
+              'must keep its tree, K must be left alone, returned sets are cleared / polluted by the caller after being recorded STACKED NEGATIONS: random formulas with 2-4 negations stacked on random subformulas (under quantifiers, between temporal operators, over derived operators and constants), object and text channel. JOINED ATOM NAMES: atom names of which one is the concatenation / blank- or comma-join / repetition / case variant of others ({p, q} and {pq} are different label sets), most structures with a state of each kind')
     known_finding_probe(R)
     cs = cases(R)
     tags = {}
@@ -110,6 +110,11 @@ def run(R):
     run_mc(R, 'CTLS', long_prefix_cases(R.rng, 3000 if R.thorough else 300), label='_long_common_prefix', alias_every=0)
     # or/and nodes with 3-5 (or 1) operands, each a distinct temporal (possibly quantified) formula
     run_mc(R, 'CTLS', wide_cases(R.rng, 4000 if R.thorough else 400, 'CTLS'), label='_wide_connectives', alias_every=4)
+    # negations stacked (not not phi, not not not phi) at random positions: over quantifiers, between temporal operators, over derived operators
+    neg = stacked_negation_cases(R.rng, 4000 if R.thorough else 400, 'CTLS')
+    run_mc(R, 'CTLS', neg, label='_stacked_negations', alias_every=4)
+    # atom names of which one is the concatenation / join of others: {p, q} and {pq} are different label sets
+    run_mc(R, 'CTLS', joined_name_cases(R.rng, 3000 if R.thorough else 300, 'CTLS'), label='_joined_atom_names', alias_every=4)
     # structures with 4-6 states and few distinct label sets, ALL installed with shared label-set objects, and formulas with nested
     # quantifiers: the fresh-atom labelling of the working clone must not leak from one state to the states that shared its set
     rng = R.rng
@@ -130,7 +135,7 @@ def run(R):
     light = [c for c in cs if tcount(c[1]) <= 4]
     run_mc(R, 'CTLS', rng.sample(light, 10000 if R.thorough else 1000) + extra[::4] + stale[::4], label='_renamed_states', alias_every=0, varied=True)
     # the text channel with multi-character atom names
-    run_text(R, 'CTLS', [c for c in rng.sample(light, 4000 if R.thorough else 400) + extra[::8] if all(len(g) > 2 or g[0] not in NARY for g in subformulas(c[1]))])
+    run_text(R, 'CTLS', [c for c in rng.sample(light, 4000 if R.thorough else 400) + extra[::8] + neg[::3] if all(len(g) > 2 or g[0] not in NARY for g in subformulas(c[1]))])
     # one structure queried, edited by its owner and queried again; formula objects reused
     run_live(R, 'CTLS', 3000 if R.thorough else 250)
 
